@@ -214,6 +214,11 @@ def run_check(mod, tier, seed, workers=None, keep_digests=False, extra_env=None,
                         json.dump(v["replay"], fh, indent=1)
                     res, txt = verify_replay(path, v["replay"].get("hashseed", "0"), scratch, extra_env)
                     ok = res is not None and res["reproduced"]
+                if not ok and res is not None and v["sig"].get("clause") == "termination-wall":
+                    # a wall-clock stop that does not repeat in a fresh interpreter was machine load, not the code under test:
+                    # inconclusive, recorded in the evidence, neither a verdict nor a harness failure
+                    merged["probes"]["wall_clock_stop_not_reproduced"] = merged["probes"].get("wall_clock_stop_not_reproduced", 0) + v["count"]
+                    continue
                 if not ok:
                     harness.append(f"replay {path} did not reproduce in a fresh interpreter: {txt[-800:] if res is None else res['violations']}")
                     continue
